@@ -220,6 +220,16 @@ impl Emit {
                         ));
                         format!("{}<'a, 'a>", name)
                     }
+                    2 | 3 if parts.len() == 1 => {
+                        // ONE generic struct definition shared by all such descriptors of a
+                        // program, instantiated with many different type arguments
+                        self.n_struct -= 1;
+                        if *variant == 2 {
+                            format!("GOnlyB<'a, {}>", parts[0])
+                        } else {
+                            format!("GOnlyW<'a, {}>", parts[0])
+                        }
+                    }
                     2 | 3 if !parts.is_empty() => {
                         // the last member is supplied through a type parameter
                         let (last, init) = parts.split_last().unwrap();
@@ -333,7 +343,7 @@ pub fn emit_program(descs: &[(Ty, Vec<u16>)]) -> String {
         ));
     }
     format!(
-        "// generated by vcheck (C06); do not edit\n#![allow(non_camel_case_types, clippy::all)]\nuse std::marker::PhantomData;\nuse shred::{{Read, ReadExpect, ResourceId, SystemData, World, Write, WriteExpect}};\nuse crate::rt::*;\n\n{}\n{}\npub fn run(rep: &mut Report) {{\n{}}}\n",
+        "// generated by vcheck (C06); do not edit\n#![allow(non_camel_case_types, clippy::all)]\nuse std::marker::PhantomData;\nuse shred::{{Read, ReadExpect, ResourceId, SystemData, World, Write, WriteExpect}};\nuse crate::rt::*;\n\n#[derive(SystemData)]\npub struct GOnlyB<'a, T: SystemData<'a>> {{\n    pub inner: T,\n    pub m: PhantomData<&'a ()>,\n}}\n#[derive(SystemData)]\npub struct GOnlyW<'a, T>\nwhere\n    T: SystemData<'a>,\n{{\n    pub inner: T,\n    pub m: PhantomData<&'a ()>,\n}}\n\n{}\n{}\npub fn run(rep: &mut Report) {{\n{}}}\n",
         e.defs, aliases, body
     )
 }
@@ -455,8 +465,15 @@ pub fn run_c06(quick: bool, seed: u64) -> SubResult {
         for arity in 1..=26usize {
             descs.push((gen_desc(&streams[arity - 1], Some(arity)), streams[arity - 1].clone()));
         }
-        for s in &streams[26..] {
-            descs.push((gen_desc(s, None), s.clone()));
+        for (k, s) in streams[26..].iter().enumerate() {
+            let d = gen_desc(s, None);
+            // every 12th descriptor is the shared generic derive struct around the generated type
+            // (the same struct definition gets many different type arguments in one program)
+            if k % 12 == 5 {
+                descs.push((Ty::DeriveNamed(2 + (k / 12 % 2) as u8, vec![d]), s.clone()));
+            } else {
+                descs.push((d, s.clone()));
+            }
         }
         for (t, _) in &descs {
             let nb = reads(t).len() + writes(t).len();
